@@ -1,7 +1,7 @@
 (* C11: state files are crash-consistent; the binary stream reads back what it wrote
    (statements only; proofs in MemStreamProofs.v and CrashProofs.v). *)
 From Coq Require Import NArith List Bool Lia.
-From CV Require Import C11.MemStreamModel C11.MemStreamProofs.
+From CV Require Import C11.MemStreamModel C11.MemStreamProofs C11.CrashModel C11.CrashProofs.
 Import ListNotations.
 Open Scope N_scope.
 
@@ -132,6 +132,62 @@ Theorem C11_truncation_detected : forall (l : list item) (p q : list byte),
 Proof. exact truncation_detected. Qed.
 Print Assumptions C11_truncation_detected.
 
+(* ===================== (b) the replace protocol ===================== *)
+
+(* Within one process lifetime: any number of saves, the process may die before any file system
+   call or inside any write (any prefix persists), no call returns an error.  Starting from an empty
+   directory, or from any directory whose current file is absent or complete: from the moment the
+   first save completed (or from the start, if a complete state was already there), the state file
+   or its .old backup holds a complete state at every point where the process can die. *)
+Theorem C11_crash_consistent_one_process : forall (fs : fsys) (plan : list outcome) (l : list saveop),
+  curok fs = true -> kills_only plan = true ->
+  let '(m', rs) := session (start fs plan) l in
+  safe fs = true \/ completed rs = true -> safe (m_fs m') = true.
+Proof. exact crash_consistent_one_process. Qed.
+Print Assumptions C11_crash_consistent_one_process.
+
+(* The property text quantifies over fault sequences ("a crash at any instant ... from the moment the
+   first state was completed"); full statement over several process lifetimes on the same directory:
+
+     Theorem C11_crash_consistent : forall h, Forall (fun sp => kills_only (snd sp) = true) h ->
+       let '(fs', out) := history empty_fs h in
+       existsb (fun o => completed (fst o)) out = true -> safe fs' = true.
+
+   FALSE of the code: a process that dies while writing leaves a partial <name>; the next process
+   renames that partial file over the only complete copy (<name>.old) before it writes anything. *)
+Definition S100 (v : N) : saveop := mkS v [] 100.
+Theorem C11_crash_consistent_refuted : exists h : list (list saveop * list outcome)%type,
+  Forall (fun sp => kills_only (snd sp) = true) h /\
+  existsb (fun o => completed (fst o)) (snd (history empty_fs h)) = true /\
+  safe (fst (history empty_fs h)) = false.
+Proof.
+  exists [ ([S100 1; S100 2], [OOk; OOk; OOk; OOk;   OOk; OOk; OOk; OKill 10]);
+           ([S100 3], [OOk; OOk; OKill 0]) ].
+  split; [repeat constructor | split; vm_compute; reflexivity].
+Qed.
+Print Assumptions C11_crash_consistent_refuted.
+
+(* The variant in which a write fails without process death.  A detected error (during write_state)
+   leaves the stream registered in a failed state: every later save of the process is refused and
+   the directory is never touched again (the backup survives, no new state is ever written). *)
+Theorem C11_error_path_stuck_stream : forall (m : mach) (v : N) (ch : list N) (tail : N),
+  m_reg m = Open true -> save m v ch tail = (m, Done false).
+Proof. exact stuck_stream. Qed.
+Print Assumptions C11_error_path_stuck_stream.
+
+(* Errors that the code does not look at break the invariant without any second crash:
+   (i) the last buffer is flushed inside close_output_stream() and its failure is ignored: the save
+       reports success on a truncated file, and the next save renames it over the good backup;
+   (ii) the result of backup_file()/rename is ignored by output_stream(): the only copy is truncated. *)
+Theorem C11_error_path_refuted :
+  (let '(m, rs) := session (start empty_fs [OOk; OOk; OOk; OOk;  OOk; OOk; OOk; OErr; OOk;  OOk; OOk; OKill 0])
+                           [S100 1; S100 2; S100 3] in
+   rs = [Done true; Done true; Dead] /\ safe (m_fs m) = false) /\
+  (let '(m, rs) := session (start empty_fs [OOk; OOk; OOk; OOk;  OOk; OErr; OOk; OKill 10]) [S100 1; S100 2] in
+   rs = [Done true; Dead] /\ safe (m_fs m) = false).
+Proof. split; vm_compute; split; reflexivity. Qed.
+Print Assumptions C11_error_path_refuted.
+
 (* non-vacuity *)
 Example C11_example_roundtrip :
   let l := [IObj [1;2;3;4]; IStr [97;98;99]; IVec 8 [[1;0;0;0;0;0;0;0]; [2;0;0;0;0;0;0;0]]] in
@@ -150,3 +206,9 @@ Example C11_example_truncation :
   enc_all l = [3;0;0;0;0;0;0;0;97;98] ++ [99] /\
   snd (read_items (input_stream [3;0;0;0;0;0;0;0;97;98]) (map shape_of l)) = false.
 Proof. split; vm_compute; reflexivity. Qed.
+
+Example C11_example_protocol :
+  let '(m, rs) := session (start empty_fs [OOk; OOk; OOk; OOk; OOk; OOk; OOk; OKill 10]) [S100 1; S100 2] in
+  curok empty_fs = true /\ rs = [Done true; Dead] /\ completed rs = true /\ safe (m_fs m) = true /\
+  m_trace m = [SAccess; SOpen; SWrite 100; SClose; SAccess; SRename; SOpen; SWrite 100].
+Proof. vm_compute. repeat split; reflexivity. Qed.
